@@ -94,6 +94,29 @@ def run(ctx):
     td = ctx.harness([("typeddata", td_doc)])[0]
     want = ["0x" + pyref.keccak256(b"\x19Ethereum Signed Message:\n" + str(len(msg)).encode() + msg).hex()] * 2 + ["0x" + t.signing_hash().hex()] * 2
     want += ["0x" + td.fields[0].hex()] * 2 + ["0x" + td.fields[2].hex()] + ["0x" + pyref.keccak256(msg).hex()] * 2
+    # typed data against an independent EIP-712 (not the library): the fixed document, and documents whose primary type is the
+    # domain type itself (message different from / equal to the domain)
+    ty = {"EIP712Domain": [("name", "string"), ("chainId", "uint256")], "Msg": [("to", "address"), ("amount", "uint256"), ("memo", "string")]}
+    ref = pyref.eip712_digest(ty, "Msg", {"name": "C16", "chainId": 5}, {"to": b"\xab" * 20, "amount": 1000, "memo": "hi"})
+    if td.tag != "ok" or tuple(td.fields) != ref:
+        ctx.violation("typeddata-digest-equals-eip712", dict(document=td_doc), [x.hex() for x in ref], str(td)[:300])
+    dty = {"EIP712Domain": [("name", "string"), ("version", "string"), ("chainId", "uint256")]}
+    dom = {"name": "C16", "version": "1", "chainId": 5}
+    for k, mv in enumerate(({"name": "other", "version": "2", "chainId": rng.randrange(1 << 64)}, dom, {"name": "C16", "version": "1", "chainId": 6})):
+        doc = json.dumps({"types": {"EIP712Domain": [{"name": n, "type": t_} for n, t_ in dty["EIP712Domain"]]}, "primaryType": "EIP712Domain",
+                          "domain": dom, "message": mv})
+        ref = pyref.eip712_digest(dty, "EIP712Domain", dom, mv)
+        p_ = os.path.join(tmp, "tdd%d.json" % k)
+        open(p_, "w").write(doc)
+        a0 = accounts[0]
+        rr = [dict(args=["hash", "typeddata", p_]), dict(args=["hash", "typeddata", "--message-hash", "-"], stdin=doc.encode()),
+              dict(args=["sign", "--mnemonic", a0["phrase"]] + (["--password", a0["pw"]] if a0["pw"] else []) + sel_args(a0["sel"])[0] + ["typeddata", "-"], stdin=doc.encode())]
+        ww = ["0x" + ref[0].hex(), "0x" + ref[2].hex(), sig_text(a0["key"], ref[0])]
+        for rn, r, w in zip(rr, ctx.cli(rr), ww):
+            ctx.count("typeddata/domain-as-primary-type")
+            ctx.distinct(("tdd", k, tuple(rn["args"][:3])))
+            if r.cls != "ok" or r.stdout.decode().strip() != w:
+                ctx.violation("typeddata-domain-as-primary-type", dict(op="hdwallet " + " ".join(short(x, 40) for x in rn["args"]), document=doc), w, str(r)[:300])
     for rn, got, w in zip(hruns, hout, want):
         ctx.count("hash-subcommands")
         ctx.distinct(("hash", tuple(rn["args"])))
